@@ -17,11 +17,12 @@ import (
 
 // Ctx is what a rule set sees.
 type Ctx struct {
-	P     *load.Program
-	S     *report.Set
-	Tier  string
-	Arch  string // "" amd64
-	Tests bool
+	P       *load.Program
+	S       *report.Set
+	Tier    string
+	Arch    string // "" amd64
+	Tests   bool
+	instIdx map[string][]*ssa.Function
 }
 
 // RuleSet decides one property.
@@ -197,6 +198,30 @@ func (c *Ctx) reachable(roots []*ssa.Function, keep func(*ssa.Function) bool) ma
 			seen[g] = true
 			work = append(work, g)
 		}
+		// go/callgraph (CHA/VTA) does not connect interface invokes to methods of
+		// instantiated generic types; add them by type: every instance method
+		// whose receiver implements the invoked interface.
+		for _, b := range f.Blocks {
+			for _, in := range b.Instrs {
+				call, ok := in.(ssa.CallInstruction)
+				if !ok || !call.Common().IsInvoke() {
+					continue
+				}
+				for _, g := range c.instanceMethods(call.Common().Method.Name()) {
+					if seen[g] || !keep(g) {
+						continue
+					}
+					it, ok := call.Common().Value.Type().Underlying().(*types.Interface)
+					if !ok || g.Signature.Recv() == nil {
+						continue
+					}
+					if types.Implements(g.Signature.Recv().Type(), it) {
+						seen[g] = true
+						work = append(work, g)
+					}
+				}
+			}
+		}
 		// closures created inside f are part of f's behaviour only if called;
 		// VTA covers calls. Anonymous functions stored and returned are reached
 		// through their MakeClosure sites:
@@ -343,3 +368,23 @@ func fmtState(names []string, s esp.State) string {
 }
 
 var _ = fmt.Sprintf
+
+// instanceMethods indexes methods of instantiated generic types by name.
+func (c *Ctx) instanceMethods(name string) []*ssa.Function {
+	if c.instIdx == nil {
+		c.instIdx = map[string][]*ssa.Function{}
+		for f := range c.P.AllFunctions() {
+			if strings.HasPrefix(f.Synthetic, "instance of") && f.Signature.Recv() != nil && f.Blocks != nil && load.FuncInRepo(f) {
+				n := f.Name()
+				if o := f.Origin(); o != nil {
+					n = o.Name()
+				}
+				c.instIdx[n] = append(c.instIdx[n], f)
+			}
+		}
+		for _, l := range c.instIdx {
+			sort.Slice(l, func(i, j int) bool { return l[i].String() < l[j].String() })
+		}
+	}
+	return c.instIdx[name]
+}
